@@ -118,8 +118,47 @@ type Tagged Tag
 func (t Tagged) Compile(i FeatureIndex, w World) search.Iterator {
 	if strings.HasPrefix(t.Key, "#") {
 		return search.All{Token: fmt.Sprintf("%s=%s", t.Key[1:], t.Value.String())}.Compile(i)
+	} else if strings.HasPrefix(t.Key, "@") {
+		// Only the key of an @ tag is indexed, so search by key and filter
+		// the candidates by value.
+		return &taggedValue{tagged: t, index: i, world: w, iterator: search.All{Token: t.Key[1:]}.Compile(i)}
 	}
 	return search.NewEmptyIterator()
+}
+
+type taggedValue struct {
+	tagged   Tagged
+	index    FeatureIndex
+	world    World
+	iterator search.Iterator
+}
+
+func (t *taggedValue) Next() bool {
+	for {
+		ok := t.iterator.Next()
+		if !ok {
+			return false
+		}
+		if t.tagged.Matches(t.index.Feature(t.Value()), t.world) {
+			return true
+		}
+	}
+}
+
+func (t *taggedValue) Advance(key search.Key) bool {
+	ok := t.iterator.Advance(key)
+	for ok && !t.tagged.Matches(t.index.Feature(t.Value()), t.world) {
+		ok = t.iterator.Next()
+	}
+	return ok
+}
+
+func (t *taggedValue) Value() search.Value {
+	return t.iterator.Value()
+}
+
+func (t *taggedValue) EstimateLength() int {
+	return t.iterator.EstimateLength()
 }
 
 func (t Tagged) Matches(f Feature, w World) bool {
